@@ -65,6 +65,14 @@ def check_c17(prop, tier, seed):
             p = fmt.render_yaml(doc, os.path.join(wd, "doc%d.yaml" % j))
             lines.append(dict(id=100 + j, kind="valid", rule="none", pos=0, doc=doc, name="generated-%d" % j))
             paths.append(p)
+        # the same documents with the eval()-ed keys spelled "(a,b)" / "(+a, b)"
+        for j, ln in enumerate(list(lines)):
+            if j % 3:
+                continue
+            d2 = fmt.respell(ln["doc"], ["tight", "plus"][(j // 3) % 2])
+            p = fmt.render_yaml(d2, os.path.join(wd, "respelled%d.yaml" % j), alias=False)
+            lines.append(dict(id=5000 + j, kind="valid", rule="none", pos=0, doc=d2, name=ln["name"] + "-respelled"))
+            paths.append(p)
         loaded = fmt.load_all(paths)
         for ln, L in zip(lines, loaded):
             ln["loaded"] = L
@@ -162,6 +170,9 @@ def check_c18(prop, tier, seed):
         else:
             bases = [(i + 1, d, n) for i, (n, p, d) in enumerate(shipped)]
             bases += [(100 + j, d, "generated-%d" % j) for j, d in enumerate(pick_rich(docs, 40))]
+        # every base also with its eval()-ed keys spelled "(a,b)"
+        bases += [(1000 + i, fmt.respell(d, "tight"), n + "-respelled") for i, d, n in list(bases)
+                  if n in ("tiny", "generated-0") or tier != "quick"]
         mwd = os.path.join(wd, "mut")
         os.makedirs(mwd)
         muts, rgen = fmt.gen_mutants([(i, d) for i, d, n in bases], mwd)
